@@ -38,30 +38,55 @@ def close(a, b, scale=1.0):
     return abs(a - b) <= 1e-9 * (1 + scale)
 
 
-def groups_of(time, scope):
-    """time groups exactly as the real code computes them (real keys, integer codes for the driver)"""
-    from ibicus import utils
+def as_date(t):
+    """a python date for a datetime.date / datetime.datetime / np.datetime64 entry"""
+    if isinstance(t, np.datetime64):
+        return t.astype("datetime64[D]").astype(object)
+    return t
 
-    with warnings.catch_warnings():
-        warnings.simplefilter("ignore")
-        if scope == "day":
-            g = utils.day_of_year(time)
-            return [int(v) for v in g], [int(v) for v in g]
-        if scope == "month":
-            g = utils.month(time)
-            return [int(v) for v in g], [int(v) for v in g]
-        if scope == "season":
-            g = utils.season(time)
-            return [str(v) for v in g], [SEASON_CODE[str(v)] for v in g]
+
+def season_of_month(mth):
+    """the documented seasons: DJF = Winter, MAM = Spring, JJA = Summer, SON = Autumn"""
+    return {12: "Winter", 1: "Winter", 2: "Winter", 3: "Spring", 4: "Spring", 5: "Spring",
+            6: "Summer", 7: "Summer", 8: "Summer", 9: "Autumn", 10: "Autumn", 11: "Autumn"}[mth]
+
+
+def groups_of(time, scope):
+    """time groups computed INDEPENDENTLY of ibicus (python datetime: tm_yday, .month, the documented DJF/MAM/JJA/SON
+    rule): real dict keys and integer codes for the driver.  `check_calendar` compares ibicus.utils with these."""
+    ds = [as_date(t) for t in time]
+    if scope == "day":
+        g = [d.timetuple().tm_yday for d in ds]
+        return g, list(g)
+    if scope == "month":
+        g = [d.month for d in ds]
+        return g, list(g)
+    if scope == "season":
+        g = [season_of_month(d.month) for d in ds]
+        return g, [SEASON_CODE[v] for v in g]
     return None, None
 
 
 def years_of(time):
+    return [as_date(t).year for t in time]
+
+
+def check_calendar(time, problems_all, res):
+    """ibicus.utils.day_of_year / month / season / year on this time axis against the independent calendar"""
     from ibicus import utils
 
+    res.extra["calendar_axes_checked"] = res.extra.get("calendar_axes_checked", 0) + 1
     with warnings.catch_warnings():
         warnings.simplefilter("ignore")
-        return [int(v) for v in utils.year(time)]
+        real = {"day": [int(v) for v in utils.day_of_year(time)], "month": [int(v) for v in utils.month(time)],
+                "season": [str(v) for v in utils.season(time)], "year": [int(v) for v in utils.year(time)]}
+    for scope in ("day", "month", "season", "year"):
+        want = years_of(time) if scope == "year" else groups_of(time, scope)[0]
+        if real[scope] != want:
+            k = next(i for i in range(len(want)) if real[scope][i] != want[i])
+            problems_all.append(("time_groups", f"utils.{'day_of_year' if scope == 'day' else scope}({as_date(time[k])}) = {real[scope][k]!r}, "
+                                 f"the calendar says {want[k]!r}: the per-{scope} threshold scope / annual split is evaluated on the wrong groups",
+                                 {"what": "time_groups", "scope": scope, "date": str(as_date(time[k])), "ibicus": real[scope][k], "calendar": want[k]}, 1))
 
 
 def enc_thr(loc, v):
@@ -613,7 +638,7 @@ def run(tier, res, force_search=False):
     res.trusted = C.BASE_TRUSTED + [
         "tier B only: metrics.py is an array pipeline outside the tier-A translator's subset (incl. _calculate_spell_lengths_one_location, "
         "which is modelled literally in Model.Metrics.spellsLiteral and proved equal to a run-length encoder)",
-        "calendar arithmetic (day of year / month / season / year) is done by ibicus.utils and Python's datetime; the model receives integer codes",
+        "calendar arithmetic is Python's datetime (tm_yday, .month, .year, DJF/MAM/JJA/SON); ibicus.utils.day_of_year/month/season/year are compared with it on every time axis used; the model receives integer codes",
         "scipy.ndimage.label is an oracle: clusters_conserve assumes Model.Metrics.LabelLaw, which the harness checks on scipy's labels in every case",
         "np.quantile (method 'linear') as transcribed in Model.Stats.quantileLinear; pandas left merge looks every key up; np.unique = sorted distinct",
         "dataset_unchanged: numpy aliasing is not modelled; the store model's flag (fresh result buffer) is observed with np.shares_memory and a byte comparison of the caller's array around every public method",
@@ -636,6 +661,7 @@ def run(tier, res, force_search=False):
     # ---- every public method on random data sets
     for k in range(n_all):
         case = gen_case(rng, tier)
+        check_calendar(case["time"], problems_all, res)
         m = make_metric(case)
         out, probs = run_real(case, m)
         desc = describe(case)
@@ -668,6 +694,7 @@ def run(tier, res, force_search=False):
     big_kinds = ["time", "grid"] if tier == "quick" else ["time", "grid", "time", "grid", "time", "grid"]
     for kind in big_kinds:
         case = gen_big_case(rng.randint(0, 10**9), kind)
+        check_calendar(case["time"], problems_all, res)
         out, probs = run_real(case, make_metric(case))
         desc = describe(case)
         size = case["T"] * case["I"] * case["J"]
@@ -680,9 +707,81 @@ def run(tier, res, force_search=False):
                   sample={**describe(case, with_data=False), "instances": int(inst.sum(dtype=np.int64)) if isinstance(inst, np.ndarray) else inst})
         res.extra["big_cases"] = res.extra.get("big_cases", 0) + 1
 
+    # ---- the calendar on its own: season boundaries, leap days, century years, datetime64 axes
+    for y in [1900, 2000, 2100, rng.randint(1901, 2099), 4 * rng.randint(480, 520)]:
+        days = [datetime.date(y, 1, 1) + datetime.timedelta(days=k) for k in range(366 if (y % 4 == 0 and (y % 100 != 0 or y % 400 == 0)) else 365)]
+        check_calendar(np.array(days, dtype=object), problems_all, res)
+        check_calendar(np.array(days, dtype="datetime64[D]"), problems_all, res)
+    edge = [datetime.date(y, mth, d) for y in (1900, 1999, 2000, 2024, 2100) for mth, d in
+            [(2, 28), (3, 1), (5, 31), (6, 1), (8, 31), (9, 1), (11, 30), (12, 1), (12, 31), (1, 1)]] + [datetime.date(2000, 2, 29), datetime.date(2024, 2, 29)]
+    rng.shuffle(edge)
+    check_calendar(np.array(edge, dtype=object), problems_all, res)
+
+    # ---- stateful sequences: ONE metric object and the SAME array objects across calls; between calls the buffer is
+    #      refilled / rescaled in place or the metric's attributes are reassigned; every call is judged against the
+    #      defining comparison on the CURRENT content
+    n_seq = 25 if tier == "quick" else 200
+    if force_search or not lean_ok:
+        n_seq *= 3
+    for k in range(n_seq):
+        case = gen_case(rng, tier)
+        while case["expect_error"] or case["T"] > 80:
+            case = gen_case(rng, tier)
+        m = make_metric(case)
+        history = ["fresh"]
+        for stepno in range(rng.randint(2, 4)):
+            if stepno > 0:
+                action = rng.choice(["refill", "scale", "threshold", "type", "refill-time"])
+                if action == "refill":  # new data into the same buffer
+                    _, vals, xnew = gen_data(rng, case["T"], case["I"], case["J"])
+                    case["x"][...] = xnew
+                    case["vals"] = vals
+                elif action == "scale":  # in-place unit conversion
+                    f = rng.choice([2, -1, Fraction(1, 2), 4])
+                    case["x"] *= float(f)
+                    case["vals"] = [v * f for v in case["vals"]]
+                elif action == "threshold":  # reassign the attribute on the same object
+                    pool = sorted(set(case["vals"]))
+                    def redo(v):
+                        if case["scope"] == "overall":
+                            return gen_value(rng, pool, case["loc"], case["I"], case["J"], None)
+                        return {kk: gen_value(rng, pool, case["loc"], case["I"], case["J"], None) for kk in v}
+                    case["v0"] = redo(case["v0"])
+                    if case["v1"] is not None:
+                        case["v1"] = redo(case["v1"])
+                    tv = real_spec(case["scope"], case["loc"], case["v0"])
+                    m.threshold_value = tv if case["v1"] is None else [tv, real_spec(case["scope"], case["loc"], case["v1"])]
+                elif action == "type":
+                    case["ty"] = {"higher": "lower", "lower": "higher", "between": "outside", "outside": "between"}[case["ty"]]
+                    m.threshold_type = case["ty"]
+                else:  # same time array object, new dates written into it (only the groups matter)
+                    shift = rng.randint(1, 400)
+                    case["time"][...] = np.array([as_date(t) + datetime.timedelta(days=shift) for t in case["time"]], dtype=object)
+                    keys_real, codes = groups_of(case["time"], case["scope"])
+                    if case["scope"] != "overall" and not all(kk in case["v0"] and (case["v1"] is None or kk in case["v1"]) for kk in keys_real):
+                        case["time"][...] = np.array([as_date(t) - datetime.timedelta(days=shift) for t in case["time"]], dtype=object)
+                        action = "none"
+                    else:
+                        case["keys_real"], case["codes"] = keys_real, codes
+                history.append(action)
+            out, probs = run_real(case, m)
+            desc = {**describe(case), "sequence_on_one_metric_object": list(history)}
+            size = case["T"] * case["I"] * case["J"]
+            for kd, p in probs:
+                problems_all.append((kd, p + f" (call {stepno + 1} of a sequence {history})", desc, size))
+            for kd, b in oracle(case, out):
+                problems_all.append((kd, b + f" (call {stepno + 1} of a sequence on one metric object: {history})", desc, size))
+            snap = dict(case)
+            snap["time"] = case["time"].copy()
+            lines.append(driver_line(snap, out))
+            expect.append(("all", snap, out))
+        res.count(("sequence", tuple(history), case["ty"], case["scope"], case["loc"]), True)
+    res.extra["stateful_sequences"] = n_seq
+
     # ---- quantile-defined metrics
     for k in range(n_q):
         qc = gen_qcase(rng, tier)
+        check_calendar(qc["time"], problems_all, res)
         line, exp, probs = run_qcase(qc, res)
         for kind, p in probs:
             problems_all.append((kind, p, describe_q(qc), qc["T"] * qc["I"] * qc["J"]))
@@ -785,6 +884,14 @@ def replay(data):
         if not probs:
             print("  the recorded input no longer fails")
         return 1 if probs else 0
+    if fi and fi.get("what") == "time_groups":
+        probs = []
+        check_calendar(np.array([datetime.date.fromisoformat(fi["date"])], dtype=object), probs, C.Result(PROP, "replay"))
+        for _, b, _, _ in probs:
+            print("  still failing:", b)
+        if not probs:
+            print("  the recorded input no longer fails")
+        return 1 if probs else 0
     if fi and fi.get("big"):
         case = gen_big_case(fi["data_seed"], fi["big"])
         out, probs = run_real(case, make_metric(case))
@@ -824,7 +931,18 @@ def replay(data):
                 scope=scope, v0=dec(parts[0]), v1=dec(parts[1]) if len(parts) > 1 else None, codes=codes, keys_real=keys_real,
                 code_of=(lambda k: SEASON_CODE[k]) if scope == "season" else (lambda k: int(k)), time_none=fi["time_none"],
                 expect_error=fi["expect_error"], minlen=fi["minlen"], tkind=fi["tkind"], order=fi["order"], style=fi["style"])
-    out, probs = run_real(case, make_metric(case))
+    m = make_metric(case)
+    if fi.get("sequence_on_one_metric_object"):
+        # the failure was observed on a metric object / buffers that had been used before: evaluate once on other
+        # content and with the opposite type, then put the recorded state into the same objects
+        flip = {"higher": "lower", "lower": "higher", "between": "outside", "outside": "between"}
+        keep = case["x"].copy()
+        case["x"][...] = -keep - 1
+        m.threshold_type = flip[case["ty"]]
+        run_real(case, m)
+        case["x"][...] = keep
+        m.threshold_type = case["ty"]
+    out, probs = run_real(case, m)
     bad = [p for _, p in probs]
     if case["expect_error"] is None:
         bad += [b for _, b in oracle(case, out)]
